@@ -429,3 +429,49 @@ Proof.
   - intros acc. replace (length (file ++ e1) + 10)%nat with (length file1) by (unfold file1; rewrite !app_length; lia).
     apply RD.
 Qed.
+
+(* ---------- the reader on one emitted RR ---------- *)
+Definition po0 : popts := mkPopts false false false false true false.
+
+Definition rd_covers (ty : Z) (rd : rdata) : Z :=
+  if ty =? tRRSIG then match rd with PB (a :: b :: _) :: _ => a * 256 + b | _ => 0 end else 0.
+
+(* what the wire holds at off: an RR that reads back as (owner', ty, cl, ttl, rd') and ends at end_ *)
+Definition RRreads (w : list Z) (off : nat) (owner' : name) (ty cl ttl : Z) (fs : list fld)
+           (rd' : rdata) (end_ : nat) : Prop :=
+  exists c1 rdl : nat,
+    (c1 + 10 + rdl = end_)%nat /\ (end_ <= length w)%nat /\ (off < c1)%nat /\ Z.of_nat rdl <= 65535 /\
+    forall ext,
+      rr_head (w ++ ext) None off = Ok (owner', owner', c1, ty, cl, ttl, Z.of_nat rdl) /\
+      forall acc, dec_fields (w ++ ext) fs None end_ (c1 + 10) acc = Ok (rev acc ++ rd', end_).
+
+Lemma RRreads_app w more off owner' ty cl ttl fs rd' end_ :
+  RRreads w off owner' ty cl ttl fs rd' end_ -> RRreads (w ++ more) off owner' ty cl ttl fs rd' end_.
+Proof.
+  intros (c1 & rdl & A & B & C & D & E). exists c1, rdl. repeat split; try assumption.
+  - rewrite app_length. lia.
+  - rewrite <- app_assoc. apply E.
+  - rewrite <- app_assoc. apply E.
+Qed.
+
+Lemma get_rr_ordinary w off owner' ty cl ttl fs rd' end_ ext sec count i fu m :
+  RRreads w off owner' ty cl ttl fs rd' end_ ->
+  ty <> tOPT -> ty <> tTSIG -> schema_of cl ty = Some fs -> 0 <= ttl <= 2147483647 ->
+  get_rr (w ++ ext) None po0 false sec count i off fu m
+  = Ok (end_, fu, set_sec m sec (find_add (get_sec m sec) owner' cl ty (rd_covers ty rd') None fu
+                                          (fun rs => rrset_add rs rd' ttl))).
+Proof.
+  intros (c1 & rdl & A & B & C & D & E) H1 H2 HS Httl.
+  destruct (E ext) as (EH & ED). unfold get_rr. rewrite EH. cbn [bind].
+  assert (E1 : (ty =? tOPT) = false) by (apply Z.eqb_neq; assumption).
+  assert (E2 : (ty =? tTSIG) = false) by (apply Z.eqb_neq; assumption).
+  rewrite !E1, !E2.
+  cbn [orb]. unfold parse_rr_header. cbn [negb bind]. rewrite ?E1, ?E2.
+  rewrite Nat2Z.id.
+  destruct (Nat.ltb_spec (length (w ++ ext) - (c1 + 10)) rdl); [rewrite app_length in *; lia|].
+  unfold dec_rdata. rewrite HS. rewrite A. rewrite ED. cbn [bind fst snd rev app].
+  rewrite Nat.eqb_refl. cbn [bind].
+  destruct (Z.gtb_spec ttl 2147483647); [lia|].
+  unfold po0. cbn [p_xfr andb orb]. rewrite orb_false_r. unfold rd_covers.
+  rewrite ?E1, ?E2. destruct (ty =? tRRSIG); reflexivity.
+Qed.
